@@ -167,6 +167,10 @@ func Open(name string) (*File, error) {
 	if op.denied() {
 		return nil, ErrKilled
 	}
+	if e := op.Faulted(); e != nil {
+		leave(op, e)
+		return nil, e
+	}
 	f, err := wrapFile(os.Open(name))
 	leave(op, err)
 	return f, err
@@ -181,6 +185,10 @@ func OpenFile(name string, flag int, perm FileMode) (*File, error) {
 	if op.denied() {
 		return nil, ErrKilled
 	}
+	if e := op.Faulted(); e != nil {
+		leave(op, e)
+		return nil, e
+	}
 	if op != nil {
 		op.Flags = flag
 	}
@@ -193,6 +201,10 @@ func Create(name string) (*File, error) {
 	op := enter("create", name, "", 2)
 	if op.denied() {
 		return nil, ErrKilled
+	}
+	if e := op.Faulted(); e != nil {
+		leave(op, e)
+		return nil, e
 	}
 	if op != nil {
 		op.Flags = os.O_RDWR | os.O_CREATE | os.O_TRUNC
@@ -207,6 +219,10 @@ func CreateTemp(dir, pattern string) (*File, error) {
 	if op.denied() {
 		return nil, ErrKilled
 	}
+	if e := op.Faulted(); e != nil {
+		leave(op, e)
+		return nil, e
+	}
 	f, err := wrapFile(os.CreateTemp(dir, pattern))
 	if op != nil && err == nil {
 		op.Path = f.File.Name()
@@ -220,6 +236,10 @@ func MkdirTemp(dir, pattern string) (string, error) {
 	if op.denied() {
 		return "", ErrKilled
 	}
+	if e := op.Faulted(); e != nil {
+		leave(op, e)
+		return "", e
+	}
 	s, err := os.MkdirTemp(dir, pattern)
 	leave(op, err)
 	return s, err
@@ -229,6 +249,10 @@ func Remove(name string) error {
 	op := enter("remove", name, "", 2)
 	if op.denied() {
 		return ErrKilled
+	}
+	if e := op.Faulted(); e != nil {
+		leave(op, e)
+		return e
 	}
 	err := os.Remove(name)
 	leave(op, err)
@@ -240,6 +264,10 @@ func RemoveAll(name string) error {
 	if op.denied() {
 		return ErrKilled
 	}
+	if e := op.Faulted(); e != nil {
+		leave(op, e)
+		return e
+	}
 	err := os.RemoveAll(name)
 	leave(op, err)
 	return err
@@ -249,6 +277,10 @@ func Rename(oldpath, newpath string) error {
 	op := enter("rename", oldpath, newpath, 2)
 	if op.denied() {
 		return ErrKilled
+	}
+	if e := op.Faulted(); e != nil {
+		leave(op, e)
+		return e
 	}
 	err := os.Rename(oldpath, newpath)
 	leave(op, err)
@@ -260,6 +292,10 @@ func Link(oldname, newname string) error {
 	if op.denied() {
 		return ErrKilled
 	}
+	if e := op.Faulted(); e != nil {
+		leave(op, e)
+		return e
+	}
 	err := os.Link(oldname, newname)
 	leave(op, err)
 	return err
@@ -269,6 +305,10 @@ func Symlink(oldname, newname string) error {
 	op := enter("symlink", oldname, newname, 2)
 	if op.denied() {
 		return ErrKilled
+	}
+	if e := op.Faulted(); e != nil {
+		leave(op, e)
+		return e
 	}
 	err := os.Symlink(oldname, newname)
 	leave(op, err)
@@ -280,6 +320,10 @@ func Mkdir(name string, perm FileMode) error {
 	if op.denied() {
 		return ErrKilled
 	}
+	if e := op.Faulted(); e != nil {
+		leave(op, e)
+		return e
+	}
 	err := os.Mkdir(name, perm)
 	leave(op, err)
 	return err
@@ -289,6 +333,10 @@ func MkdirAll(name string, perm FileMode) error {
 	op := enter("mkdir", name, "", 2)
 	if op.denied() {
 		return ErrKilled
+	}
+	if e := op.Faulted(); e != nil {
+		leave(op, e)
+		return e
 	}
 	err := os.MkdirAll(name, perm)
 	leave(op, err)
@@ -300,6 +348,10 @@ func Truncate(name string, size int64) error {
 	if op.denied() {
 		return ErrKilled
 	}
+	if e := op.Faulted(); e != nil {
+		leave(op, e)
+		return e
+	}
 	err := os.Truncate(name, size)
 	leave(op, err)
 	return err
@@ -310,6 +362,10 @@ func ReadFile(name string) ([]byte, error) {
 	if op.denied() {
 		return nil, ErrKilled
 	}
+	if e := op.Faulted(); e != nil {
+		leave(op, e)
+		return nil, e
+	}
 	b, err := os.ReadFile(name)
 	leave(op, err)
 	return b, err
@@ -319,6 +375,10 @@ func WriteFile(name string, data []byte, perm FileMode) error {
 	op := enter("writefile", name, "", 2)
 	if op.denied() {
 		return ErrKilled
+	}
+	if e := op.Faulted(); e != nil {
+		leave(op, e)
+		return e
 	}
 	if op != nil {
 		op.Data = append([]byte(nil), data...)
@@ -333,6 +393,10 @@ func ReadDir(name string) ([]DirEntry, error) {
 	if op.denied() {
 		return nil, ErrKilled
 	}
+	if e := op.Faulted(); e != nil {
+		leave(op, e)
+		return nil, e
+	}
 	r, err := os.ReadDir(name)
 	leave(op, err)
 	return r, err
@@ -343,6 +407,10 @@ func Stat(name string) (FileInfo, error) {
 	if op.denied() {
 		return nil, ErrKilled
 	}
+	if e := op.Faulted(); e != nil {
+		leave(op, e)
+		return nil, e
+	}
 	fi, err := os.Stat(name)
 	leave(op, err)
 	return fi, err
@@ -352,6 +420,10 @@ func Lstat(name string) (FileInfo, error) {
 	op := enter("stat", name, "", 2)
 	if op.denied() {
 		return nil, ErrKilled
+	}
+	if e := op.Faulted(); e != nil {
+		leave(op, e)
+		return nil, e
 	}
 	fi, err := os.Lstat(name)
 	leave(op, err)
@@ -382,6 +454,13 @@ func (f *File) Close() error {
 	if op.denied() {
 		return ErrKilled
 	}
+	if e := op.Faulted(); e != nil {
+		// like close(2) returning EIO: the descriptor is gone all the same
+		f.File.Close()
+		untrack(f)
+		leave(op, e)
+		return e
+	}
 	err := f.File.Close()
 	untrack(f)
 	leave(op, err)
@@ -397,6 +476,10 @@ func (f *File) Write(b []byte) (int, error) {
 		op = enter("write", f.name(), "", 2)
 		if op.denied() {
 			return 0, ErrKilled
+		}
+		if e := op.Faulted(); e != nil {
+			leave(op, e)
+			return 0, e
 		}
 	}
 	n, err := f.File.Write(b)
@@ -420,6 +503,10 @@ func (f *File) WriteAt(b []byte, off int64) (int, error) {
 	if op.denied() {
 		return 0, ErrKilled
 	}
+	if e := op.Faulted(); e != nil {
+		leave(op, e)
+		return 0, e
+	}
 	n, err := f.File.WriteAt(b, off)
 	if op != nil {
 		op.File = f
@@ -436,6 +523,10 @@ func (f *File) Sync() error {
 	if op.denied() {
 		return ErrKilled
 	}
+	if e := op.Faulted(); e != nil {
+		leave(op, e)
+		return e
+	}
 	err := f.File.Sync()
 	leave(op, err)
 	return err
@@ -448,6 +539,10 @@ func (f *File) Truncate(size int64) error {
 	op := enter("truncate", f.name(), "", 2)
 	if op.denied() {
 		return ErrKilled
+	}
+	if e := op.Faulted(); e != nil {
+		leave(op, e)
+		return e
 	}
 	err := f.File.Truncate(size)
 	leave(op, err)
